@@ -57,10 +57,14 @@ BASE_CMD = ('cd /repo && /venv/bin/python -m pytest -ra -q -p no:cacheprovider -
             '--continue-on-collection-errors')
 
 
+# properties whose check is finished (quiet on the unchanged tree at several seeds, mutants run)
+READY = ['C01', 'C02', 'C03', 'C04', 'C07', 'C08', 'C13', 'C14', 'C15', 'C16', 'C17']
+
+
 def main():
     checks, na = [], []
     for pid, t in TABLE.items():
-        if os.path.exists(os.path.join(HERE, 'vpbt', 'checks', pid.lower() + '.py')):
+        if pid in READY and os.path.exists(os.path.join(HERE, 'vpbt', 'checks', pid.lower() + '.py')):
             checks.append({
                 'property_id': pid,
                 'quick_cmd': f'./check {pid} quick',
